@@ -103,7 +103,7 @@ def perm_mc(wd):
             raise MachineryError(f"ExprPerm design check: {v} violated\n" + r["out"][-2000:])
         tlc_ok(r, "ExprPerm MC")
         return {"generated": r["generated"], "distinct": r["distinct"], "invariants": ["PermSound"]}
-    return cached("ep-mc", go)
+    return cached("ep-mc", go, module="ExprPerm")
 
 
 def perm_gen(wd, depth):
@@ -113,7 +113,7 @@ def perm_gen(wd, depth):
         ts = tagged_lines(r["out"], "PERM")
         ts.sort(key=lambda t: json.dumps(t, sort_keys=True))
         return {"items": [dict(t, id=f"p{i}") for i, t in enumerate(ts)], "generated": r["generated"], "distinct": r["distinct"]}
-    return cached(f"ep-gen-{depth}", go)
+    return cached(f"ep-gen-{depth}", go, module="ExprPerm")
 
 
 def perm_records(wd, tier):
